@@ -12,8 +12,10 @@
    keywords / numbers / comments carry exactly their lexical class, and every keyword / number /
    comment inside a declaration is reported.  Also proved: the token half of [doc_wf_b] for every
    output of `lex`, the ordering part of the tree half for every output of `parse`.
-   NOT proved (validated by correspondence + oracle only): that build/analyze keep the tree part,
-   that declaration names end with identifier tokens.  The classification of identifiers by binding
+   Also proved: build/analyze keep offsets and ranges, so for every document produced by
+   AnalyzedSource::new [doc_wf_b] reduces to [decls_names_b] (C15_new_doc_wf, C15_new_doc_stream).
+   NOT proved (validated on every generated document by the judge's wf flag): that declaration names
+   end with identifier tokens ([decls_names_b]) for parser outputs.  The classification of identifiers by binding
    kind ([C15_full_statement]) is stated on the model and REFUTED by a witness that the known
    findings C15-type-use-shadowed-by-local / C15-trailing-comment describe; outside those two
    classes it is validated by oracle only. *)
@@ -63,6 +65,26 @@ Theorem C15_decls_ordered : forall toks prog,
   EofLast toks -> parse toks = Done prog -> decls_ordered_b (length toks) 0 (pg_decls prog) = true.
 Proof. exact parse_decls_ordered. Qed.
 Print Assumptions C15_decls_ordered.
+
+(* for the documents the server holds (AnalyzedSource::new) the well-formedness predicate reduces to
+   the condition on declaration names (the rest is proved: C06 tiling, parser synchronisation,
+   build/analyze keep offsets and ranges) ... *)
+Theorem C15_new_doc_wf : forall t d,
+  new_doc t = Done d -> doc_wf_b d = decls_names_b (d_toks d) (pg_decls (d_ast d)).
+Proof. exact new_doc_wf. Qed.
+Print Assumptions C15_new_doc_wf.
+
+(* ... so for every text, provided the names of the declarations end with identifier tokens: *)
+Theorem C15_new_doc_stream : forall t d,
+  new_doc t = Done d -> decls_names_b (d_toks d) (pg_decls (d_ast d)) = true ->
+  exists data,
+    semantic_tokens d = SOk data /\
+    decode data = map (tok_view t) (emitted d) /\
+    Subseq (map fst (emitted d)) (d_toks d) /\
+    StronglySorted (fun a b => pos_lt (at_pos a) (at_pos b)) (decode data) /\
+    Forall lex_ok (emitted d).
+Proof. exact new_doc_stream. Qed.
+Print Assumptions C15_new_doc_stream.
 
 (* ---- the classification part ---- *)
 (* In a document without diagnostics the answer reports (a) every keyword / number / comment of the
